@@ -45,7 +45,7 @@ var Spec = &gen.Spec{
 		}
 	},
 	Assume: []string{
-		"generator: 107 numbers (IEEE specials, neighbours of 0.5 / 1 / 2^52 / 2^53, extremes), 39 strings, 4 other primitives, 9 scripted conversion objects for every unary function; all ordered pairs of the numbers for pow and atan2; 0-3 arguments over 15 values for max/min",
+		"generator: 97 numbers (217 in the thorough tier) (IEEE specials, neighbours of 0.5 / 1 / 2^52 / 2^53, extremes), 39 strings, 4 other primitives, 9 scripted conversion objects for every unary function; all ordered pairs of the numbers for pow and atan2; 0-3 arguments over 15 values for max/min",
 		"results ES5 calls an implementation-dependent approximation are judged by class (sign, range, anchors within 2^-46 relative), monotonicity on sampled pairs and inverse relations with stated tolerances; perfect squares and exactly representable integer powers are demanded exactly (property statement: exact anchors)",
 		"URI: strings of at most 3 (quick) / 4 (thorough) symbols over the stated alphabets; decoding over sequences of boundary octets, every single code unit, every one-character mutation of valid encodings; random strings of up to 8 code points in the judge direction",
 		"trusted: otto's relational operators inside BETWEEN (checked by C05), String.prototype.charCodeAt for the projection of strings",
